@@ -101,6 +101,8 @@ Charged(st, who, zfo) == B!Sub(prev.userBal[who][InIdx(zfo)], st.userBal[who][In
 Paid(st, who, zfo)    == B!Sub(st.userBal[who][OutIdx(zfo)], prev.userBal[who][OutIdx(zfo)])
 
 Eps == <<B!One, B!Pow(B!OfInt(10), 12)>>                    \* relative slack 1e-12
+FeeMult == B!Add(B!One, B!FloorDiv(conf.f, B!Sub(B!Pow(B!OfInt(10), 18), conf.f)))
+LargeF == B!Ge(conf.f, B!Mul(B!OfInt(5), B!Pow(B!OfInt(10), 17)))
 \* truncation unit of the spread-reward accumulator, in tokens per unit of liquidity
 UlpFee == IF conf.scaledFee THEN RScaled(B!One, 45) ELSE RScaled(B!One, 18)
 
@@ -159,7 +161,11 @@ NextN(ev) ==
     [i \in AllIds(ev.st) |->
         IF i \notin DOMAIN N THEN 0
         ELSE N[i] + (IF i \in Collector(ev) THEN 1 ELSE 0)
-                  + (IF steps # <<>> /\ i \in PosIds(prev) THEN Touch(PosOf(prev, i), steps) ELSE 0)]
+                  + (IF steps # <<>> /\ i \in PosIds(prev) THEN Touch(PosOf(prev, i), steps) ELSE 0)
+                  \* with a spread factor of one half or more, every bucket the swap traversed BEFORE this position's may have
+                  \* charged up to 1/(1-f) units more than the curve (one unit of rounding in the curve amount), which the
+                  \* position's bucket is then short of, and f of it is spread reward: one more event per bucket of the swap
+                  + (IF steps # <<>> /\ i \in PosIds(prev) /\ LargeF /\ Touch(PosOf(prev, i), steps) > 0 THEN Len(steps) ELSE 0)]
 
 NextD(ev) ==
     LET steps == IF ev.op = "swap" /\ ev.ok THEN WalkOf(ev).steps ELSE <<>> IN
@@ -199,7 +205,6 @@ Claimable(st, i, d) == IF i \in PosIds(st) THEN PosOf(st, i).fee[d] ELSE B!Zero
 
 \* one unit of rounding in the amount that reaches the curve carries f/(1-f) units of spread reward: the per-event
 \* allowance is counted in units of 1 + floor(f/(1-f)) (one for every spread factor below one half, 20 for 0.95)
-FeeMult == B!Add(B!One, B!FloorDiv(conf.f, B!Sub(B!Pow(B!OfInt(10), 18), conf.f)))
 FeeBoundsOK(st, e, p, n, dd, rd) ==
     \A i \in DOMAIN e : \A d \in 1..2 :
         LET c  == RInt(B!Add(Claimable(st, i, d), p[i][d]))
